@@ -147,28 +147,58 @@ fn check_foreign(items: &[Vec<u8>], utf8: bool, as_name: bool, st: &mut Stats, o
     }
 }
 
+pub const HOWS: [&str; 8] = ["start_file", "start_file+ZipCrypto", "add_directory", "add_symlink", "start_file_with_extra_data", "start_file_aligned", "start_file(large_file, deflated)", "raw_copy_file_rename"];
+const WPW: &[u8] = b"n";
+
 /// Writer side: the given names are written by the real writer (empty stored entries).
 fn check_writer(names: &[String], st: &mut Stats, order0: u64) {
+    check_writer_how(names, 0, st, order0)
+}
+
+/// `how` selects the call that receives the name (index into HOWS).
+fn check_writer_how(names_in: &[String], how: u8, st: &mut Stats, order0: u64) {
     let mut calls = vec![];
-    for n in names {
-        calls.push(Call::StartFile { name: n.clone(), opts: FOpts::m(0) });
+    // a directory name gains a trailing '/' unless it already ends in a separator: that is the name the writer is given
+    let names_v: Vec<String> = names_in.iter().map(|n| if how == 2 && !(n.ends_with('/') || n.ends_with('\\')) { format!("{n}/") } else { n.clone() }).collect();
+    let names = &names_v[..];
+    let src = if how == 7 { vec![exec(&[Call::StartFile { name: "src".into(), opts: FOpts::m(8) }, Call::Write(b"copied".to_vec()), Call::Finish], &[]).1] } else { vec![] };
+    for n in names_in {
+        match how {
+            1 => {
+                calls.push(Call::StartFile { name: n.clone(), opts: FOpts { password: Some(WPW.to_vec()), ..FOpts::m(0) } });
+                calls.push(Call::Write(b"x".to_vec()));
+            }
+            2 => calls.push(Call::AddDir { name: n.clone(), opts: FOpts::m(0) }),
+            3 => calls.push(Call::AddSymlink { name: n.clone(), target: "t\u{e9}".into(), opts: FOpts::m(0) }),
+            4 => {
+                calls.push(Call::StartExtra { name: n.clone(), opts: FOpts::m(0) });
+                calls.push(Call::Write(crate::reference::zipbuild::extra_block(0xbeef, b"e")));
+                calls.push(Call::EndExtra);
+            }
+            5 => calls.push(Call::StartAligned { name: n.clone(), opts: FOpts::m(0), align: 16 }),
+            6 => {
+                calls.push(Call::StartFile { name: n.clone(), opts: FOpts { large: true, ..FOpts::m(8) } });
+                calls.push(Call::Write(b"y".to_vec()));
+            }
+            7 => calls.push(Call::RawCopy { src: 0, idx: 0, rename: Some(n.clone()), raw_open: false }),
+            _ => calls.push(Call::StartFile { name: n.clone(), opts: FOpts::m(0) }),
+        }
     }
     calls.push(Call::Finish);
-    let case = |n: &str| json!({"kind":"writer","names":[n]});
-    let (res, bytes) = exec(&calls, &[]);
+    let case = |n: &str| json!({"kind":"writer","names":[n],"how":how});
+    let (res, bytes) = exec(&calls, &src);
     if let Some((i, r)) = res.iter().enumerate().find(|(_, r)| !r.is_ok()) {
-        let n = names.get(i).cloned().unwrap_or_default();
-        st.viol(format!("writer/call-failed/{}", r.class()), format!("start_file/finish failed for name {:?}: {}", n, r.show()), case(&n), order0 + i as u64);
+        st.viol(format!("writer/call-failed/{}", r.class()), format!("{} (call {i} of the batch) failed: {}", HOWS[how as usize], r.show()), json!({"kind":"writer","names":names_in.iter().take(50).collect::<Vec<_>>(),"how":how}), order0 + i as u64);
         return;
     }
-    let parsed = match zipparse::validate(&bytes, &Opts::strict()) {
+    let parsed = match zipparse::validate(&bytes, &Opts { password: if how == 1 { Some(WPW.to_vec()) } else { None }, ..Opts::strict() }) {
         Ok(p) => p,
         Err(e) => {
             st.viol(format!("writer/invalid-archive/{}", e.clause), format!("{e}"), json!({"kind":"writer","names":names.iter().take(50).collect::<Vec<_>>()}), order0);
             return;
         }
     };
-    let obs = match observe(&bytes, None, 1 << 20) {
+    let obs = match observe(&bytes, if how == 1 { Some(WPW) } else { None }, 1 << 20) {
         Ok(o) => o,
         Err(e) => {
             st.viol("writer/reader-failed", format!("{e:?}"), json!({"kind":"writer","names":names.iter().take(50).collect::<Vec<_>>()}), order0);
@@ -184,19 +214,19 @@ fn check_writer(names: &[String], st: &mut Stats, order0: u64) {
         st.distinct_hash(fnv(n.as_bytes()));
         let p = &parsed.entries[i];
         let order = order0 + i as u64;
-        st.class(if n.is_ascii() { "writer/ascii" } else { "writer/non-ascii" });
+        st.class(&format!("writer/{}/{}", HOWS[how as usize], if n.is_ascii() { "ascii" } else { "non-ascii" }));
         if p.name != n.as_bytes() || p.l_name != n.as_bytes() {
-            st.viol("writer/stored-bytes", format!("name {:?} stored as {} (central) / {} (local)", n, hex(&p.name), hex(&p.l_name)), case(n), order);
+            st.viol(format!("{}/{}", "writer/stored-bytes", HOWS[how as usize]), format!("name {:?} stored as {} (central) / {} (local)", n, hex(&p.name), hex(&p.l_name)), case(n), order);
         }
         let flag = p.flags & 0x800 != 0;
         if flag != !n.is_ascii() || (p.l_flags & 0x800 != 0) != !n.is_ascii() {
-            st.viol("writer/utf8-flag", format!("name {:?}: bit 11 central {} local {}", n, flag, p.l_flags & 0x800 != 0), case(n), order);
+            st.viol(format!("{}/{}", "writer/utf8-flag", HOWS[how as usize]), format!("name {:?}: bit 11 central {} local {}", n, flag, p.l_flags & 0x800 != 0), case(n), order);
         }
         if obs.entries[i].name != *n {
-            st.viol("writer/readback", format!("name {:?} read back as {:?}", n, obs.entries[i].name), case(n), order);
+            st.viol(format!("{}/{}", "writer/readback", HOWS[how as usize]), format!("name {:?} read back as {:?}", n, obs.entries[i].name), case(n), order);
         }
         if obs.entries[i].name_raw != n.as_bytes() {
-            st.viol("writer/readback-raw", format!("name {:?} raw read back as {}", n, hex(&obs.entries[i].name_raw)), case(n), order);
+            st.viol(format!("{}/{}", "writer/readback-raw", HOWS[how as usize]), format!("name {:?} raw read back as {}", n, hex(&obs.entries[i].name_raw)), case(n), order);
         }
     }
 }
@@ -216,7 +246,7 @@ fn replay(case: &Value, st: &mut Stats) {
         }
         _ => {
             let names: Vec<String> = case["names"].as_array().map(|a| a.iter().map(|x| x.as_str().unwrap_or("").to_string()).collect()).unwrap_or_default();
-            check_writer(&names, st, 0);
+            check_writer_how(&names, case["how"].as_u64().unwrap_or(0) as u8, st, 0);
         }
     }
 }
@@ -229,7 +259,7 @@ pub fn run(args: &Args) -> i32 {
     let thorough = args.tier.thorough();
     ctx.rule = "E-PROD. Foreign side (independent builder): every single byte 0..=255 alone and embedded as 'a?b', every 2-byte string (65 536), \
         every 3-byte string (2^24; quick: as UTF-8-mode names, thorough: all four combinations) and 12 long strings, each as entry name and as file comment, with the UTF-8 flag set and clear; oracle = CPython-derived \
-        CP437 table / std::String::from_utf8_lossy / raw bytes, through the seekable reader, the streaming reader (names) and the visitor's metadata objects (names and comments). Writer side: every string of <= 2 characters over a 40-character alphabet and every Unicode scalar \
+        CP437 table / std::String::from_utf8_lossy / raw bytes, through the seekable reader, the streaming reader (names) and the visitor's metadata objects (names and comments). Writer side: every string of <= 2 characters over a 40-character alphabet through each of the 8 calls that take a name (start_file, +ZipCrypto, add_directory, add_symlink, with extra data, aligned, large_file+deflated, raw copy with rename) and every Unicode scalar \
         value as a name; oracle = independent parser finds exactly the UTF-8 bytes with bit 11 set iff non-ASCII and the crate reader \
         returns the string. distinct_nontrivial = distinct (string, mode, position) cases counted by the enumerator (never repeated) + distinct writer names (hash set)."
         .into();
@@ -310,6 +340,16 @@ pub fn run(args: &Args) -> i32 {
         check_writer(chunk, &mut st, 4 << 30);
     }
     ctx.stats.merge(st);
+    // the same strings through every other call that takes a name
+    let chunks2: Vec<&[String]> = names.chunks(200).collect();
+    let s = par_for(chunks2.len() as u64 * 7, 1, |t, st| {
+        let how = 1 + (t % 7) as u8;
+        // an empty directory name is not a name ("" + "/" is the root): the writer's choice is not C19's business
+        let chunk: Vec<String> = chunks2[(t / 7) as usize].iter().filter(|n| !(how == 2 && n.is_empty())).cloned().collect();
+        check_writer_how(&chunk, how, st, (6 << 30) + (t << 12));
+    });
+    ctx.stats.merge(s);
+    ctx.bound("writer_calls", json!(HOWS));
     ctx.stats.sample(json!({"kind":"writer","names":["é☃", "\u{0}/"]}));
     // every scalar value
     let step = 1;
@@ -331,6 +371,8 @@ pub fn run(args: &Args) -> i32 {
     let s = par_for(chunks.len() as u64, 1, |i, st| {
         let names: Vec<String> = chunks[i as usize].iter().map(|c| c.to_string()).collect();
         check_writer(&names, st, (5 << 30) + (i << 14));
+        // and as the name of a ZipCrypto entry (the encryption bit shares the flag word with the UTF-8 bit)
+        check_writer_how(&names, 1, st, (7 << 30) + (i << 14));
     });
     ctx.stats.merge(s);
 
